@@ -5,8 +5,10 @@
    chunking r of the byte stream s, Decode returns the canonical form of m.
    [src_of (scan_all r)] is what a decoder sees through pktline.Scanner. *)
 From Coq Require Import List NArith ZArith Bool.
-From GoGit Require Import Base.Out Model.PktLine Model.Packp
-  Proofs.C34Pkt Proofs.C35Base Proofs.C35Msgs Proofs.C35Caps Proofs.C35Adv Proofs.C35Upd Proofs.C35Ul.
+From GoGit Require Import Base.Out Model.PktLine Model.C35Utf8 Model.Packp Model.PackpV2
+  Proofs.C34Pkt Proofs.C35Base Proofs.C35Msgs Proofs.C35Caps Proofs.C35Adv Proofs.C35Upd Proofs.C35Ul
+  Proofs.C35V2Base Proofs.C35V2Caps Proofs.C35V2Fetch Proofs.C35V2Ls Proofs.C35V2Out
+  Spec.GitProto Proofs.C35Git Proofs.C35GitV2 Proofs.C35GitV0 Proofs.C35GitAdv Proofs.C35GitUpd Proofs.C35GitCmd Proofs.C35GitOut.
 Import ListNotations.
 
 (* capability.List: DecodeList (l.String()) = l for lists with distinct,
@@ -38,21 +40,15 @@ Theorem C35_report_roundtrip : forall m s r, rs_ok m = true ->
 Proof. intros m s r H He Hr. eapply on_stream; eauto using rs_no_errline, rs_roundtrip. Qed.
 Print Assumptions C35_report_roundtrip.
 
-(* ShallowUpdate — FULL STATEMENT: forall m with valid ids (SHA-1 or SHA-256),
-   decode (encode m) = m.  It is false of the code (known finding): *)
-Theorem C35_shupd_sha256_refuted : exists m,
-  forallb hash_ok (su_shallows m ++ su_unshallows m) = true /\
-  su_decode (mksrc (map item_of (su_encode m)) None) = inr EOther.
-Proof. exists (mkshupd [mkhash (repeat 171%N 32) true] []). vm_compute. split; reflexivity. Qed.
-Print Assumptions C35_shupd_sha256_refuted.
-
-(* ... PARTIAL: it holds when all ids are SHA-1 (guard sha1_ok) *)
-Theorem C35_shupd_roundtrip_partial : forall m s r,
-  forallb sha1_ok (su_shallows m) = true -> forallb sha1_ok (su_unshallows m) = true ->
+(* ShallowUpdate (after "fix: packp: accept SHA-256 ids in a shallow-update"; the
+   unchanged tree rejected its own encoding of SHA-256 ids): every list of
+   valid ids, SHA-1 or SHA-256 *)
+Theorem C35_shupd_roundtrip : forall m s r,
+  forallb hash_ok (su_shallows m) = true -> forallb hash_ok (su_unshallows m) = true ->
   enc_pkts (su_encode m) = Some s -> concat r = s ->
   su_decode (src_of (scan_all r)) = inl m.
 Proof. intros m s r H1 H2 He Hr. eapply on_stream; eauto using su_no_errline, su_roundtrip. Qed.
-Print Assumptions C35_shupd_roundtrip_partial.
+Print Assumptions C35_shupd_roundtrip.
 
 (* UploadHaves (SHA-1 and SHA-256): the haves come back sorted and without
    duplicates, Done is preserved *)
@@ -62,8 +58,9 @@ Theorem C35_uphav_roundtrip : forall m s r, forallb hash_ok (uh_haves m) = true 
 Proof. intros m s r H He Hr. eapply on_stream; eauto using uh_no_errline, uh_roundtrip. Qed.
 Print Assumptions C35_uphav_roundtrip.
 
-(* PushOptions: every list of options that Encode accepts (graphic ASCII,
-   at most MaxPayloadSize) and none of which starts with "ERR " *)
+(* PushOptions: every list of options that Encode accepts (every rune graphic in
+   the sense of unicode.IsGraphic — any UTF-8, invalid bytes count as U+FFFD — and
+   at most MaxPayloadSize bytes) and none of which starts with "ERR " *)
 Theorem C35_pushopts_roundtrip : forall opts ps s r,
   po_encode opts = Some ps -> forallb (fun o => negb (has_prefix errPrefix o)) opts = true ->
   enc_pkts ps = Some s -> concat r = s ->
@@ -71,7 +68,7 @@ Theorem C35_pushopts_roundtrip : forall opts ps s r,
 Proof.
   intros opts ps s r Hp Hn He Hr. eapply on_stream; eauto using po_roundtrip.
   unfold po_encode in Hp.
-  destruct (forallb (fun o => forallb graphic_ascii o && (zlen o <=? Gen.C34.pktline_MaxPayloadSize)%Z) opts); [|discriminate].
+  destruct (forallb (fun o => graphic_str o && (zlen o <=? Gen.C34.pktline_MaxPayloadSize)%Z) opts); [|discriminate].
   injection Hp as <-.
   rewrite forallb_app. cbn [forallb]. rewrite andb_true_r.
   rewrite forallb_forall in *. intros p Hp. apply in_map_iff in Hp. destruct Hp as (o & <- & Ho). now apply Hn.
@@ -119,21 +116,11 @@ Proof.
 Qed.
 Print Assumptions C35_updreq_roundtrip.
 
-(* UploadRequest — FULL STATEMENT: forall well-formed requests, decode (encode m) = m.
-   False of the code (known finding): a request with a filter cannot be decoded *)
-Theorem C35_ulreq_filter_refuted : exists m ps,
-  ul_encode m = ULok ps /\ forallb no_errline ps = true /\
-  ul_decode (mksrc (map item_of ps) None) = inr EUnexpected.
-Proof.
-  exists (mkulreq [] [mkhash (repeat 17%N 20 ++ repeat 0%N 12) false] [] 0 None [] [98; 108; 111; 98; 58; 110; 111; 110; 101]%N).
-  eexists. split; [reflexivity|]. vm_compute. split; reflexivity.
-Qed.
-Print Assumptions C35_ulreq_filter_refuted.
-
-(* ... PARTIAL: without a filter (guard ul_ok: Filter empty) every request
-   round-trips: capabilities, wants and shallows (sorted, de-duplicated), and
-   every depth form (deepen n / deepen-since t / deepen-not refs) *)
-Theorem C35_ulreq_roundtrip_partial : forall m, ul_ok m = true ->
+(* UploadRequest (after "fix: packp: decode the filter line of an upload-request";
+   the unchanged tree could not decode a request with Filter set): capabilities,
+   wants and shallows (sorted, de-duplicated), every depth form (deepen n /
+   deepen-since t / deepen-not refs) and the filter round-trip *)
+Theorem C35_ulreq_roundtrip : forall m, ul_ok m = true ->
   exists ps, ul_encode m = ULok ps /\
     forall s r, enc_pkts ps = Some s -> concat r = s ->
       ul_decode (src_of (scan_all r)) = inl (ul_canon m).
@@ -141,7 +128,199 @@ Proof.
   intros m H. destruct (ul_roundtrip m H) as (ps & He & Hn & Hd). exists ps. split; [assumption|].
   intros s r Hs Hr. now rewrite (src_enc ps s r Hs Hn Hr).
 Qed.
-Print Assumptions C35_ulreq_roundtrip_partial.
+Print Assumptions C35_ulreq_roundtrip.
+
+(* ================= protocol v2 =================
+   The v2 decoders call pktline.ReadLine themselves: [map fst (rl_all r)] is the
+   sequence of ReadLine results on the reader r (any chunking of the bytes),
+   [val] drops the unread rest.  Guards: capability keys and values, commands,
+   ref-prefixes, reference names, deepen-not references and filters are words
+   of graphic non-blank ASCII (keys without '='); ids are valid SHA-1 / SHA-256. *)
+Lemma on_lines {A} (dec : lines -> (A * lines) + v2err) ps s r v :
+  enc_pkts ps = Some s -> concat r = s -> forallb no_errline ps = true ->
+  dec (map rdp ps ++ [rd_fail PEeof]) = inl (v, [rd_fail PEeof]) -> val (dec (map fst (rl_all r))) = inl v.
+Proof. intros He Hr Hn Hd. rewrite (rl_all_fst ps s r He Hn Hr), Hd. reflexivity. Qed.
+
+(* CapabilityAdv: "version 2", one capability per line, flush-pkt *)
+Theorem C35_capadv_roundtrip : forall l ps s r, caps2_ok l = true ->
+  capadv_encode 2 l = Some ps -> enc_pkts ps = Some s -> concat r = s ->
+  val (capadv_decode (map fst (rl_all r))) = inl (2%Z, l).
+Proof.
+  intros l ps s r H Hc He Hr. destruct (capadv_roundtrip l ps [rd_fail PEeof] H Hc) as [Hn Hd].
+  rewrite (rl_all_fst ps s r He Hn Hr), Hd. reflexivity.
+Qed.
+Print Assumptions C35_capadv_roundtrip.
+
+(* CommandRequest: command=, capabilities, delim-pkt, the arguments of ls-refs
+   (peel / symrefs / unborn / ref-prefix) or fetch (want, have, done, thin-pack,
+   no-progress, include-tag, ofs-delta, shallow, deepen, deepen-relative,
+   deepen-since, deepen-not, filter, wait-for-done) or none, flush-pkt.
+   The fetch arguments come back with wants, haves and shallows sorted. *)
+Theorem C35_cmdreq_roundtrip : forall c ps s r, cmdreq_ok c = true ->
+  cmdreq_encode c = Some ps -> enc_pkts ps = Some s -> concat r = s ->
+  val (cmdreq_decode (cargs_zero (cr_args c)) (map fst (rl_all r))) = inl (cmdreq_canon c).
+Proof.
+  intros c ps s r H Hc He Hr. destruct (cmdreq_roundtrip c ps [rd_fail PEeof] H Hc) as [Hn Hd].
+  rewrite (rl_all_fst ps s r He Hn Hr), Hd. reflexivity.
+Qed.
+Print Assumptions C35_cmdreq_roundtrip.
+
+(* the argument encoders alone (the caller writes the flush-pkt) *)
+Theorem C35_lsargs_roundtrip : forall a ps s r, lsargs_ok a = true ->
+  lsargs_encode a = Some ps -> enc_pkts (ps ++ [PFlush]) = Some s -> concat r = s ->
+  val (lsargs_decode (map fst (rl_all r)) lsargs_zero) = inl a.
+Proof.
+  intros a ps s r H Hc He Hr. destruct (lsargs_roundtrip a ps [rd_fail PEeof] H Hc) as [Hn Hd].
+  rewrite (rl_all_fst (ps ++ [PFlush]) s r He) by (first [assumption | rewrite forallb_app, Hn; reflexivity]). now rewrite Hd.
+Qed.
+Print Assumptions C35_lsargs_roundtrip.
+
+Theorem C35_fetchargs_roundtrip : forall a ps s r, fetchargs_ok a = true ->
+  fetchargs_encode a = Some ps -> enc_pkts (ps ++ [PFlush]) = Some s -> concat r = s ->
+  val (fetchargs_decode (map fst (rl_all r)) fetchargs_zero) = inl (fetchargs_canon a).
+Proof.
+  intros a ps s r H Hc He Hr. destruct (fetchargs_roundtrip a ps [rd_fail PEeof] H Hc) as [Hn Hd].
+  rewrite (rl_all_fst (ps ++ [PFlush]) s r He) by (first [assumption | rewrite forallb_app, Hn; reflexivity]). now rewrite Hd.
+Qed.
+Print Assumptions C35_fetchargs_roundtrip.
+
+(* LsRefsOutput: "<oid> <name>", " symref-target:<t>" for a symbolic reference
+   (its oid is that of the target, or "unborn"), " peeled:<oid>" for a name
+   that has a ^{} entry, which comes back as its own reference right after *)
+Theorem C35_lsout_roundtrip : forall refs s r, forallb lsref_ok refs = true ->
+  enc_pkts (lsout_encode refs ++ [PFlush]) = Some s -> concat r = s ->
+  val (lsout_decode (map fst (rl_all r)) []) = inl (lsout_canon refs).
+Proof.
+  intros refs s r H He Hr. destruct (lsout_roundtrip refs [rd_fail PEeof] H) as [Hn Hd].
+  rewrite (rl_all_fst _ s r He) by (first [assumption | rewrite forallb_app, Hn; reflexivity]). now rewrite Hd.
+Qed.
+Print Assumptions C35_lsout_roundtrip.
+
+(* FetchOutput: a negotiation round (acknowledgments without ready, flush-pkt), or
+   the sections acknowledgments (with ready) / shallow-info / wanted-refs /
+   packfile-uris, each closed by a delim-pkt, and the packfile header.
+   Guard fetchout_ok: with a packfile, acknowledgments must be ready (Encode does
+   not check it; go-git's and git's decoders refuse such a response). *)
+Theorem C35_fetchout_roundtrip : forall o ps s r, fetchout_ok o = true ->
+  fetchout_encode o = Some ps -> enc_pkts ps = Some s -> concat r = s ->
+  val (fetchout_decode (map fst (rl_all r))) = inl o.
+Proof.
+  intros o ps s r H Hc He Hr. destruct (fetchout_roundtrip o ps [rd_fail PEeof] H Hc) as [Hn Hd].
+  rewrite (rl_all_fst ps s r He Hn Hr), Hd. reflexivity.
+Qed.
+Print Assumptions C35_fetchout_roundtrip.
+
+(* the full statement for Encode-accepted values is false of the code: Encode
+   writes acknowledgments without "ready" in front of a packfile, Decode refuses it *)
+Theorem C35_fetchout_noready_refuted : exists o ps,
+  fetchout_encode o = Some ps /\ forallb no_errline ps = true /\
+  fetchout_decode (map rdp ps ++ [rd_fail PEeof]) = inr V2Malformed.
+Proof.
+  exists (mkfetchout (Some ([], false)) None None None true). eexists. split; [reflexivity|]. vm_compute. split; reflexivity.
+Qed.
+Print Assumptions C35_fetchout_noready_refuted.
+
+(* ... and Decode leaves the reader right behind the packfile header: whatever
+   bytes t follow (the packfile data), exactly |t| bytes are unread *)
+Theorem C35_fetchout_position : forall o ps s t r, fetchout_ok o = true -> fo_packfile o = true ->
+  fetchout_encode o = Some ps -> enc_pkts ps = Some s -> concat r = s ++ t ->
+  exists ls', fetchout_decode (map fst (rl_all r)) = inl (o, ls') /\ rl_rest (rlen r) (rl_all r) ls' = List.length t.
+Proof. exact fetchout_position. Qed.
+Print Assumptions C35_fetchout_position.
+
+(* ================= go-git's encodings in git's grammars =================
+   S = Spec/GitProto.v: the pkt-level grammars of git's protocol documents, one
+   parser per message, validated against git 2.39.5 on every run (suite "git").
+   git_<msg> (Encode m) = Some (what git learns) — and that is m.
+   hexsz: the hex length of the conversation's object format; [sized hexsz h]:
+   h is a valid id of that format. *)
+Theorem C35_shupd_git : forall hexsz m,
+  forallb (sized hexsz) (su_shallows m) = true -> forallb (sized hexsz) (su_unshallows m) = true ->
+  git_shupd hexsz (su_encode m) false [] [] = Some (su_shallows m, su_unshallows m).
+Proof. exact git_shupd_enc. Qed.
+Print Assumptions C35_shupd_git.
+
+Theorem C35_uphav_git : forall hexsz m, forallb (sized hexsz) (uh_haves m) = true ->
+  git_haves hexsz (uh_encode m) [] = Some (uh_haves (uh_canon m), uh_done m).
+Proof. exact git_haves_enc. Qed.
+Print Assumptions C35_uphav_git.
+
+Theorem C35_srvresp_git : forall hexsz acks, sr_ok acks = true -> forallb (fun a => sized hexsz (fst a)) acks = true ->
+  git_srvresp hexsz (sr_encode acks) [] = Some acks.
+Proof. exact git_srvresp_enc. Qed.
+Print Assumptions C35_srvresp_git.
+
+(* reference names non-empty and free of blanks (report_ok) *)
+Theorem C35_report_git : forall m, report_ok m = true -> git_report (rs_encode m) = Some (rs_unpack m, rs_cmds m).
+Proof. exact git_report_enc. Qed.
+Print Assumptions C35_report_git.
+
+(* options that do not end in LF (git strips one) *)
+Theorem C35_pushopts_git : forall opts ps, po_encode opts = Some ps ->
+  forallb (fun o => negb (N.eqb NL (last o 0%N))) opts = true -> git_pushopts ps [] = Some opts.
+Proof.
+  intros opts ps He H. unfold po_encode in He.
+  destruct (forallb (fun o => graphic_str o && (zlen o <=? Gen.C34.pktline_MaxPayloadSize)%Z) opts); [|discriminate].
+  injection He as <-. now rewrite (git_pushopts_lines opts [] H).
+Qed.
+Print Assumptions C35_pushopts_git.
+
+(* upload-request: first want with the capabilities, further wants, shallow lines, the depth request, the filter —
+   in the order of the grammar; beyond ul_ok, ul_git_ok asks for one object format, a depth below 2^31,
+   a positive deepen-since and non-empty deepen-not references (what git's grammar and integer types hold) *)
+Theorem C35_ulreq_git : forall hexsz u, ul_ok u = true -> ul_git_ok hexsz u = true ->
+  exists ps, ul_encode u = ULok ps /\ git_ulreq hexsz ps = Some (ul_abs (ul_canon u)).
+Proof. exact git_ulreq_enc. Qed.
+Print Assumptions C35_ulreq_git.
+
+(* advertised-refs (v0 / v1): the capability words, the references in wire order, the sorted shallows.
+   adv_git_ok: one object format, no reference called capabilities^{} *)
+Theorem C35_advrefs_git : forall hexsz a ps, adv_ok a = true -> adv_git_ok hexsz a = true -> adv_encode a = Some ps ->
+  git_advrefs hexsz ps = Some (adv_abs a).
+Proof. exact git_advrefs_enc. Qed.
+Print Assumptions C35_advrefs_git.
+
+(* update-requests: shallow lines, the first command with the capabilities behind a NUL, the other commands, flush-pkt *)
+Theorem C35_updreq_git : forall hexsz u ps, ur_ok u = true -> ur_git_ok hexsz u = true -> ur_encode u = Some ps ->
+  git_updreq hexsz ps = Some (ur_abs u).
+Proof. exact git_updreq_enc. Qed.
+Print Assumptions C35_updreq_git.
+
+(* v2 command request: the frame (command=, capabilities, delim-pkt), then the arguments up to the flush-pkt *)
+Theorem C35_cmdreq_git : forall c ps, cmdreq_ok c = true -> cmdreq_encode c = Some ps ->
+  exists al, cargs_encode (cr_args c) = Some al /\
+             git_cmdreq ps = Some (Some (cr_command c, map cap2_abs (cr_caps c), al ++ [PFlush])).
+Proof. exact git_cmdreq_enc. Qed.
+Print Assumptions C35_cmdreq_git.
+
+Theorem C35_lsargs_git : forall a al, lsargs_ok a = true -> lsargs_encode a = Some al ->
+  git_lsargs (al ++ [PFlush]) (mkglsargs false false false []) = Some (ls_abs a).
+Proof. exact git_lsargs_enc. Qed.
+Print Assumptions C35_lsargs_git.
+
+(* fetch arguments: fa_git_ok asks for one object format, a depth below 2^31 and a positive deepen-since *)
+Theorem C35_fetchargs_git : forall hexsz a al, fetchargs_ok a = true -> fa_git_ok hexsz a = true -> fetchargs_encode a = Some al ->
+  git_fetchargs hexsz (al ++ [PFlush]) (mkgfetchargs [] [] [] [] None None [] None) = Some (fa_abs (fetchargs_canon a)).
+Proof. exact git_fetchargs_enc. Qed.
+Print Assumptions C35_fetchargs_git.
+
+(* v2: git reads each capability line as key[=value]; the values of a key are one blank-separated value *)
+Theorem C35_capadv_git : forall l ps, caps2_ok l = true -> capadv_encode 2 l = Some ps -> git_capadv ps = Some (map cap2_abs l).
+Proof. exact git_capadv_enc. Qed.
+Print Assumptions C35_capadv_git.
+
+(* v2 ls-refs output: per line the name, the oid (none for "unborn"), the symref target, the peeled oid *)
+Theorem C35_lsout_git : forall hexsz refs, forallb lsref_ok refs = true -> forallb (lsref_sized hexsz) refs = true ->
+  git_lsout hexsz (lsout_encode refs ++ [PFlush]) [] = Some (flat_map (gls_of refs) refs).
+Proof. exact git_lsout_enc. Qed.
+Print Assumptions C35_lsout_git.
+
+(* v2 fetch output up to the packfile data: the sections in the order of the grammar, acknowledgments with
+   "ready" exactly in front of a delim-pkt, the packfile header last — or acknowledgments and a flush-pkt *)
+Theorem C35_fetchout_git : forall hexsz o ps, fetchout_ok o = true -> fo_git_ok hexsz o = true -> fetchout_encode o = Some ps ->
+  git_fetchout hexsz ps = Some (fo_abs o).
+Proof. exact git_fetchout_enc. Qed.
+Print Assumptions C35_fetchout_git.
 
 (* ---------- non-vacuity ---------- *)
 From Coq Require Import String.
@@ -150,7 +329,7 @@ Definition h2 : hash := mkhash (repeat 34%N 20 ++ repeat 0%N 12) false.
 Definition h3 : hash := mkhash (repeat 171%N 32) true.
 
 Example C35_ex_guards :
-  hash_ok h1 = true /\ hash_ok h3 = true /\ sha1_ok h1 = true /\ sha1_ok h3 = false /\
+  hash_ok h1 = true /\ hash_ok h3 = true /\
   caps_ok [(B "multi_ack", []); (B "symref", [B "HEAD:refs/heads/main"]); (B "x", [[]; B "a=b"])] = true /\
   sr_ok [(h1, 1%N); (h2, 0%N)] = true /\ rs_ok (mkreport (B "ok") [(B "refs/heads/m", B "ok"); (B "refs/x", B "non fast forward")]) = true.
 Proof. vm_compute. repeat split. Qed.
@@ -168,8 +347,30 @@ Proof. vm_compute. repeat split. Qed.
 Example C35_ex_requests :
   ur_ok (mkupdreq [(B "report-status", [])] [(B "refs/heads/main", zero_hash, h1); (B "refs/tags/v1", h1, h2)] [h2]) = true /\
   ul_ok (mkulreq [(B "ofs-delta", [])] [h2; h1; h2] [h1] 0 (Some 1700000000%Z) [B "refs/heads/old"] []) = true /\
-  ul_ok (mkulreq [] [h1] [] 3 None [] []) = true /\
+  ul_ok (mkulreq [] [h1] [] 3 None [] (B "blob:none")) = true /\
+  ul_ok (mkulreq [] [h3] [h3] 0 None [B "refs/heads/x"] (B "tree:0")) = true /\
   ul_wants (ul_canon (mkulreq [] [h2; h1; h2] [] 0 None [] [])) = [h1; h2].
+Proof. vm_compute. repeat split. Qed.
+
+Example C35_ex_v2 :
+  caps2_ok [(B "agent", [B "git/2.39.5"]); (B "ls-refs", [B "unborn"]); (B "fetch", [B "shallow"; B "wait-for-done"; B "filter"]); (B "server-option", [])] = true /\
+  cmdreq_ok (mkcmdreq (B "ls-refs") [(B "agent", [B "go-git"])] (CALs (mklsargs true true false [B "refs/heads/"; B "HEAD"]))) = true /\
+  cmdreq_ok (mkcmdreq (B "fetch") [(B "object-format", [B "sha1"])]
+     (CAFetch (mkfetchargs [h2; h1] [h1] true true false true true [h2] 3 false (Some 1700000000%Z) [B "refs/heads/old"] (B "blob:none") false))) = true /\
+  forallb lsref_ok [(B "HEAD", RSym (B "refs/heads/main")); (B "refs/heads/main", RHash h1); (B "refs/tags/v1", RHash h2); (B "refs/tags/v1^{}", RHash h1)] = true /\
+  lsout_canon [(B "refs/tags/v1^{}", RHash h1); (B "refs/tags/v1", RHash h2)] = [(B "refs/tags/v1", RHash h2); (B "refs/tags/v1^{}", RHash h1)] /\
+  fetchout_ok (mkfetchout (Some ([h1], true)) (Some ([h2], [])) (Some [(B "refs/heads/main", h1)]) (Some [B "https://x/y.pack"]) true) = true /\
+  fetchout_ok (mkfetchout (Some ([], false)) None None None false) = true /\
+  fetchout_ok (mkfetchout (Some ([h1], false)) None None None true) = false.
+Proof. vm_compute. repeat split. Qed.
+
+Example C35_ex_git :
+  sized 40 h1 = true /\ sized 40 h3 = false /\ sized 64 h3 = true /\
+  ul_git_ok 40 (mkulreq [(B "ofs-delta", [])] [h2; h1; h2] [h1] 0 (Some 1700000000%Z) [B "refs/heads/old"] (B "blob:none")) = true /\
+  git_ulreq 40 [PData (B "want " ++ hash_str h1 ++ B " multi_ack ofs-delta" ++ [NL]); PData (B "deepen 3" ++ [NL]); PFlush]
+    = Some (mkgulreq [B "multi_ack"; B "ofs-delta"] [h1] [] (Some 3%Z) None [] None) /\
+  git_ulreq 40 [PData (B "want " ++ hash_str h1 ++ [NL]); PData (B "deepen 3" ++ [NL]); PData (B "deepen-since 5" ++ [NL]); PFlush] = None /\
+  report_ok (mkreport (B "ok") [(B "refs/heads/m", B "ok"); (B "refs/x", B "non fast forward")]) = true.
 Proof. vm_compute. repeat split. Qed.
 
 Example C35_ex_srvresp :
